@@ -1184,9 +1184,10 @@ impl Stream {
     pub(crate) fn position(&mut self) -> Option<(u64, usize)> {
         // returns lines_read, position.
         let result = match self {
-            Stream::Byte(byte_stream_layout) => {
-                Some(byte_stream_layout.stream.get_ref().0.position())
-            }
+            Stream::Byte(byte_stream_layout) => Some(
+                byte_stream_layout.stream.get_ref().0.position()
+                    - byte_stream_layout.stream.rem_buf_len() as u64,
+            ),
             Stream::StaticString(string_stream_layout) => {
                 Some(string_stream_layout.stream.stream.position())
             }
@@ -1290,6 +1291,12 @@ impl Stream {
                     stream,
                     ..
                 } = &mut ***stream_layout;
+
+                // the CharReader may still hold bytes it has already
+                // taken out of the cursor.
+                if stream.rem_buf_len() > 0 {
+                    return AtEndOfStream::Not;
+                }
 
                 let cursor_len = stream.get_ref().0.get_ref().len() as u64;
                 cursor_position(past_end_of_stream, &stream.get_ref().0, cursor_len)
